@@ -58,10 +58,20 @@ def serial_reference(bindir, P, argv):
         pp.close()
 
 
-def run_single(bindir, r, P, jobs, log, shuffle=False, dup_spelling=False, keep_going=False, stress=False, tag="p"):
-    """One top-level invocation; returns a dict with everything the oracles need."""
+def run_single(bindir, r, P, jobs, log, shuffle=False, dup_spelling=False, keep_going=False, stress=False, tag="p", rebuild=False):
+    """One top-level invocation; returns a dict with everything the oracles need.
+    rebuild: the project is built once first (-j2, not examined), then the scripts of a few targets without
+    dependencies are edited, so that the examined run finds recorded dependencies, rebuilds shared
+    dependencies while their consumers are being checked, and sets targets aside (finding F70)."""
     pp = par.ParProject(bindir, P, tag)
     try:
+        if rebuild:
+            first = pp.run(["redo", "all"], jobs=2, log=False)
+            leaves = [n for n, d in P.items() if not d[0]] or [n for n in P if n != "all"]
+            for n in r.sample(leaves, min(len(leaves), r.randint(1, 3))):
+                with open(os.path.join(pp.root, n + ".do"), "a") as f:
+                    f.write("# edited %d\n" % r.randint(0, 10 ** 6))
+            time.sleep(0.02)
         argv = ["redo", "all"]
         if dup_spelling:
             argv += ["./all", "all", os.path.join(pp.root, "all")]
